@@ -15,7 +15,7 @@ import ast
 from .lazy import normalise
 from .core import Unsupported, find_def
 
-OUTPUTS = ["GenDriver.v"]
+OUTPUTS = ["GenDriver.v", "GenCma.v"]
 TREE = "pyhms/tree.py"
 INIT = "pyhms/demes/initialize.py"
 # deme class -> (file, machine kind, attribute holding the engine, attribute holding the number of generations)
@@ -432,9 +432,18 @@ class MTr:
                 pre.append(f"gen_{self.cls}_run c fuel d ;;;")
                 self.produced = False
                 return V("tt", "unit")
+            if d == "self._values_for_cma" and len(args) == 1 and not e.keywords:
+                a = self._expr(args[0], env, pre)
+                v = opaque(a.tag)
+                v.role = "cmavalues"         # the direction-adjusted fitness values of that population (gen_values_for_cma)
+                return v
             if d == "self._cma_es.tell" and len(args) == 2:
                 a = self._expr(args[0], env, pre)
                 self.need_latest(e, a)
+                b = self._expr(args[1], env, pre)
+                if getattr(b, "role", None) != "cmavalues" or b.tag != LATEST:
+                    # C13 / C04: CMA-ES minimises what it is told
+                    self.bad(e, "CMA-ES must be told self._values_for_cma(<the deme's most recent generation>)")
                 return opaque()
         if self.opaque_ok(e, env):
             return opaque()
@@ -632,8 +641,15 @@ class MTr:
                 for nm, v in end_env.items():
                     if nm in inner and isinstance(v, V) and isinstance(inner[nm], V) and inner[nm].tag != v.tag:
                         if inner[nm].tag == LATEST or v.tag is None:
+                            role = getattr(inner[nm], "role", None)
                             inner[nm] = V(inner[nm].code, inner[nm].ty, STALE if v.tag else None, inner[nm].deps)
+                            if role:
+                                inner[nm].role = role
                             changed = True
+                    # the role of a value (what it was computed by) survives the loop head only if every way round the loop gives it that role
+                    if nm in inner and isinstance(v, V) and isinstance(inner[nm], V) and getattr(inner[nm], "role", None) and getattr(v, "role", None) != inner[nm].role:
+                        inner[nm] = V(inner[nm].code, inner[nm].ty, inner[nm].tag, inner[nm].deps)
+                        changed = True
                 if self.produced != p_head:
                     changed = True
                 self.produced = self.produced or p_head
@@ -799,6 +815,26 @@ def prop_listcomp(mod, cls, name, src):
             f"  flat_map (fun v_{lv.id} => filter (fun v_{dm.id} => {cond}) (level_ids ds v_{lv.id})) (seq 0 {n}).\n")
 
 
+def values_for_cma(repo):
+    """CMADeme._values_for_cma: what CMA-ES (a minimiser) is told"""
+    from .lazy import canon, return_paths
+    src = DEMES["CMADeme"][0]
+    fn = find_def(ast.parse(open(f"{repo}/{src}").read()), "_values_for_cma", "CMADeme")
+    an = [a.arg for a in fn.args.args]
+    if len(an) != 2:
+        raise Unsupported(f"{src}:{fn.lineno}: _values_for_cma signature {an}")
+    seen = {}
+    for conds, e_ in return_paths(fn, src):
+        if len(conds) != 1 or ast.unparse(conds[0][0]) not in ("self._problem.maximize", "self._problem._inner.maximize"):
+            raise Unsupported(f"{src}:{fn.lineno}: _values_for_cma: a test other than the problem's direction")
+        seen[conds[0][1]] = ast.unparse(canon(e_))
+    want = {True: f"[-_c0.fitness for _c0 in {an[1]}]", False: f"[_c0.fitness for _c0 in {an[1]}]"}
+    if seen != want:
+        raise Unsupported(f"{src}:{fn.lineno}: _values_for_cma is not `the negated fitness values for a maximisation problem, the fitness values otherwise`: {seen}")
+    return ("(* GENERATED from pyhms/demes/cma_deme.py by hv/translate/driver_py.py — do not edit *)\nFrom Coq Require Import List.\nFrom HV Require Import F64 WMonad.\n\n"
+            "Definition gen_values_for_cma (mx : bool) (fs : list F) : list F := if mx then map fneg fs else fs.\n")
+
+
 def next_child_id(mod):
     """DemeTree._next_child_id: ids as paths of numbers ("root" = [], "3" = [3], "3/7" = [3; 7])"""
     from .lazy import Inliner
@@ -910,4 +946,4 @@ def translate(repo):
     fns += [f"{TREE}:DemeTree.{m}" for m in ("run_metaepoch", "_do_sprout", "run_sprout", "run_step", "run")]
     out.append(next_child_id(tmod))
     fns.append(f"{TREE}:DemeTree._next_child_id")
-    return {"GenDriver.v": "\n".join(out)}, fns
+    return {"GenDriver.v": "\n".join(out), "GenCma.v": values_for_cma(repo)}, fns + ["pyhms/demes/cma_deme.py:CMADeme._values_for_cma"]
